@@ -28,9 +28,18 @@ pub fn feed<D: Decoder>(dec: &mut D, segs: &[Vec<u8>]) -> Fed<D::Item>
 where
     D::Error: std::fmt::Display,
 {
+    feed_with(dec, segs, |_| {})
+}
+
+/// `feed`, with `before(i)` called just before segment i is delivered (moves the clock between reads).
+pub fn feed_with<D: Decoder>(dec: &mut D, segs: &[Vec<u8>], mut before: impl FnMut(usize)) -> Fed<D::Item>
+where
+    D::Error: std::fmt::Display,
+{
     let mut buf = BytesMut::new();
     let mut out = Fed { items: vec![], err: None, panic: None, leftover: 0, calls: 0 };
-    'outer: for s in segs {
+    'outer: for (si, s) in segs.iter().enumerate() {
+        before(si);
         buf.extend_from_slice(s);
         loop {
             out.calls += 1;
